@@ -165,7 +165,63 @@ def trace_values(kind, pos, mom, direction, it):
         return {"pos": 2.0 * pos, "mom": mom}      # overlaps the key 'pos' of kind 'pos'
     if kind == "matrix":
         return {"outer": np.outer(pos, mom)}
+    if kind == "relu":
+        # a Python scalar whose TYPE depends on the state: the int 0 where pos[0] < 0, a float otherwise
+        return {"relu": max(0, float(pos[0]))}
+    if kind == "odd-keys":
+        # keys that differ only in characters which are not allowed in file names
+        return {"x^2": pos**2, "x2": 2.0 * pos, "log(x)": np.abs(mom), "logx": mom}
     raise ValueError(kind)
+
+
+def plain_trace(state):
+    """Picklable trace function needing no harness variables in the state."""
+    return {"pos": state.pos, "mom": state.mom, "dir": state.dir}
+
+
+def alias_run(cfg, how, n_process, timeout=120):
+    """A run whose initial states share objects: the same ChainState object for every chain ("same-object"), or distinct
+    ChainState objects sharing one momentum array combined with a partial momentum refresh ("shared-momentum-array").
+    Built directly on the library classes (the logging wrappers need a per-chain id inside the state)."""
+    import warnings
+
+    from mici import integrators as mi
+    from mici import samplers as msamp
+    from mici import transitions as mt
+    from mici.states import ChainState
+
+    system, _ = zoo.build_system(system_spec_of(cfg))
+    integ = mi.LeapfrogIntegrator(system, cfg["eps"])
+    k = max(2, cfg["n_chain"])
+    with warnings.catch_warnings():
+        warnings.simplefilter("ignore", DeprecationWarning)
+        rng = make_rng(cfg)
+        q0, p0 = np.array(cfg["q"][0], dtype=float), np.array(cfg["p"][0], dtype=float)
+        if how == "same-object":
+            sampler = msamp.StaticMetropolisHMC(system, integ, rng, n_step=cfg["n_step"])
+            state = ChainState(pos=q0, mom=p0, dir=1)
+            inits = [state] * k
+            kw = {"adapters": []}
+        else:
+            sampler = msamp.MarkovChainMonteCarloMethod(rng, {
+                "momentum": mt.CorrelatedMomentumTransition(system, 0.5),
+                "integration": mt.MetropolisStaticIntegrationTransition(system, integ, n_step=cfg["n_step"])})
+            inits = [ChainState(pos=np.array(cfg["q"][c % len(cfg["q"])], dtype=float) + 0.01 * c, mom=p0, dir=1)
+                     for c in range(k)]
+            kw = {}
+    old = signal.signal(signal.SIGALRM, _alarm)
+    signal.alarm(timeout)
+    try:
+        out = sampler.sample_chains(0, max(2, cfg["n_main"]), inits, n_process=n_process, trace_funcs=[plain_trace],
+                                    display_progress=False, **kw)
+    except Watchdog as e:
+        raise HarnessError("watchdog: sample_chains did not return within the time limit (inconclusive)") from e
+    finally:
+        signal.alarm(0)
+        signal.signal(signal.SIGALRM, old)
+    fs, traces = out[0], out[1]
+    return ([(np.array(s_.pos), np.array(s_.mom), int(s_.dir)) for s_ in fs],
+            {key: [np.array(a) for a in v] for key, v in traces.items()})
 
 
 class NullDisplay:
@@ -223,7 +279,7 @@ def config(draw, max_chain=4, max_warm=12, max_main=8, adapters=True, parallel=T
         "n_warm": draw(st.integers(0, max_warm)),
         "n_main": draw(st.integers(0, max_main)),
         "trace_warm_up": draw(st.booleans()),
-        "traces": draw(st.lists(st.sampled_from(["pos", "scalar", "int", "mixed", "matrix"]), max_size=3, unique=True)),
+        "traces": draw(st.lists(st.sampled_from(["pos", "scalar", "int", "mixed", "matrix", "odd-keys", "relu"]), max_size=3, unique=True)),
         "adapters": ad,
         "stager": draw(st.sampled_from(["default", "default", "warmup", "windowed"])),
         "windows": [draw(st.integers(1, 6)), draw(st.integers(0, 4)), draw(st.integers(0, 3)),
